@@ -108,4 +108,14 @@ CHECKS = {
             P("TestC03_KnownFindings"),
         ],
     ),
+    "C06": dict(
+        level="exploration",
+        rule=("rapid state machine (growth-only): 1-2 declarations; per (integration, source) start drawn from {0 = head, 1, mid-chain, above the head} and stop from {none, start..start+12}; batch_size 1..8 (so batches straddle the stop), concurrency 1..3; actions grow / step / restart (all connections and in-memory state dropped), then the head is grown past every stop and the pairs are stepped to quiescence. "
+              "Oracle per step: rows and positions written lie inside [first block, stop]; completion is reported iff a stop is configured and the recorded position reached it, and nothing is committed afterwards; C01 step invariants; table == projection of first..position (first = start, or the head served at first contact when start is 0); after a restart a recorded position is continued. "
+              "At quiescence: position == stop (further step reports completion with no commit) or == head; nothing recorded while start is above the head. non-trivial = a batch would have crossed the stop, or start above the head at first contact, or a resume after restart."),
+        assumptions=["fakepg/sim/model as for C01", "outcome values are checked where the head cache cannot blur them (completion, errors, progress); 'nothing new' may be reported while a cached head is still being served"],
+        units=[
+            R("TestC06_Range", 3200, 80000, shards=16),
+        ],
+    ),
 }
